@@ -79,6 +79,30 @@ func c09routing(c *runner.Ctx, i int) {
 			}
 		}
 	}()
+	// a statement whose bind markers do not cover the partition key (token() ranges, a literal key component, IN on
+	// the key): the node reports no partition-key indexes, and there is no routing key to build - in particular
+	// not an empty non-nil one, which the token-aware policy would hash like any other key
+	{
+		st := &c09stmt{ks: "ks", tb: fmt.Sprintf("nokey%d", i), cols: []cqlref.Column{
+			{Keyspace: "ks", Table: "nokey", Name: "lo", Type: &cqlref.Type{ID: cqlref.TBigint}},
+			{Keyspace: "ks", Table: "nokey", Name: "hi", Type: &cqlref.Type{ID: cqlref.TBigint}}}, pk: []int{}}
+		stmt := fmt.Sprintf("SELECT v FROM ks.nokey%d WHERE token(pk) > ? AND token(pk) <= ?", i)
+		cn.mu.Lock()
+		cn.stmts[stmt] = st
+		cn.mu.Unlock()
+		var got []byte
+		c.Guard("Query.GetRoutingKey", func() { got, _ = sess.Query(stmt, int64(1), int64(2)).GetRoutingKey() })
+		c.Add("statements_without_bound_partition_key", 1)
+		if got != nil {
+			c.Violation("C09:routing-key:no-bound-partition-key:key-returned", fmt.Sprintf("GetRoutingKey returned the non-nil key %x for a statement whose PREPARED answer names no partition-key bind marker", got), map[string]interface{}{"statement": stmt, "version": version})
+		}
+		b := sess.NewBatch(gocql.UnloggedBatch)
+		b.Query(stmt, int64(1), int64(2))
+		c.Guard("Batch.GetRoutingKey", func() { got, _ = b.GetRoutingKey() })
+		if got != nil {
+			c.Violation("C09:routing-key:no-bound-partition-key:key-returned", fmt.Sprintf("Batch.GetRoutingKey returned the non-nil key %x for a statement whose PREPARED answer names no partition-key bind marker", got), map[string]interface{}{"statement": stmt, "version": version})
+		}
+	}
 	for k := 0; k < 10; k++ {
 		nkey := 1 + r.Intn(4)
 		if r.Intn(3) == 0 {
